@@ -801,7 +801,7 @@ def m_reader_bytes(sym, path, args, dty):
 STD_MODELS = {
     r"Counter::<.*>::(reader|writer)_bytes$": m_reader_bytes,
     r"as Deref>::deref$|as DerefMut>::deref_mut$": m_deref,
-    r"^(std::vec::)?Vec::<.*>::len$|^core::slice::<impl \[.*\]>::len$": m_len,
+    r"^(std::vec::)?Vec::<.*>::len$|^core::slice::<impl \[.*\]>::len$|^std::fs::Metadata::len$": m_len,
     r"as (std::ops::)?Index<(std::ops::)?Range<usize>>>::index$": m_index_range,
     r"^(std|core)::cmp::min::<[ui]\w+>$": m_min,
     r"^(std|core)::cmp::max::<[ui]\w+>$": m_max,
